@@ -162,6 +162,8 @@ with size_alts (alts : calts) : nat :=
 Fixpoint length_list (es : cexprs) : nat :=
   match es with ENil => O | ECons _ r => S (length_list r) end.
 
+Definition is_prim (e : cexpr) : bool := match e with Prim _ => true | _ => false end.
+
 (* the binder the record pattern gives to field fn *)
 Definition binder_of (fn : fname) (pfs : list (fname * ident)) : option ident := lookup fn pfs.
 
@@ -174,7 +176,11 @@ Fixpoint vo (k : nat) (a b : cexpr) {struct k} : bool :=
     | Const l => match b with Const l' => lit_eqb l l' | _ => false end
     | Ident x => match b with Ident y => N.eqb x y | _ => false end
     | Prim p => match b with Prim q => primop_eqb p q | _ => false end
-    | Call f args => match b with Call f' args' => vo k f f' && vo_list k args args' | _ => false end
+    | Call f args =>
+        match b with
+        | Call f' args' => (negb (is_prim f') || is_prim f) && vo k f f' && vo_list k args args'
+        | _ => false
+        end
     | Data c args => match b with Data c' args' => N.eqb c c' && vo_list k args args' | _ => false end
     | Rec ns args => match b with Rec ns' args' => list_N_eqb ns ns' && vo_list k args args' | _ => false end
     | Cast e => match b with Cast e' => vo k e e' | _ => false end
@@ -192,7 +198,7 @@ Fixpoint vo (k : nat) (a b : cexpr) {struct k} : bool :=
         (match b with Match s' alts' => vo k s s' && vo_alts k alts alts' | _ => false end)
         || (match s, alts with
             | Rec ns args, ACons (PRec pfs) body ANil =>                                   (* R3 (+R1) *)
-                nodupb ns && nodupb (map snd pfs) && inclb (map fst pfs) ns
+                nodupb ns && nodupb (map snd pfs) && nodupb (map fst pfs) && inclb (map fst pfs) ns
                 && Nat.eqb (length ns) (length_list args)
                 && vo_fields k ns args pfs body [] b
             | _, _ => false
